@@ -26,8 +26,13 @@ func init() { runners["C08"] = runC08 }
 // behaviour. Nothing is recorded silently.
 
 func c08Ctx() map[string]interface{} {
+	lng := make([]interface{}, 60)
+	for i := range lng {
+		lng[i] = i + 1
+	}
 	return map[string]interface{}{
-		"i5": 5, "i3": 3, "i0": 0, "neg": -7, "big": 9007199254740991, "starts": 2, "with": 4, "defined": 6,
+		"lng": lng,
+		"i5":  5, "i3": 3, "i0": 0, "neg": -7, "big": 9007199254740991, "starts": 2, "with": 4, "defined": 6,
 		"s": "str", "emp": "", "sp": "a b", "q": "it's", "num": "12",
 		"yes": true, "no": false,
 		"l": []interface{}{1, 2, 3}, "el": []interface{}{}, "ls": []interface{}{"a", "b"},
